@@ -67,6 +67,12 @@ func TestVerifC55(t *testing.T) {
 						unreadable++
 						desc = append(desc, k.Name+":readdir-fails")
 						continue
+					case c == 6 && k.IsRegular():
+						w.inode++
+						k.Morph = &simfs.Node{Name: k.Name, Mode: os.ModeSymlink | 0o777, Target: "elsewhere", MTime: k.MTime, Inode: 100 + w.inode, Links: 1}
+						exp.Remove(k.Name)
+						unreadable++
+						desc = append(desc, k.Name+":becomes-a-symlink-before-it-is-opened")
 					case c == 5 && k.IsDir() && len(k.Kids) > 0:
 						k.ReaddirCut = 1 + tp.Choose(len(k.Kids)+1)
 						exp.Remove(k.Name)
